@@ -266,8 +266,9 @@ def replay_chunk(args):
                     out["attention"].append({"family": fam, "par": par, "ch": ch, "query": query, "obs": obs})
                 else:
                     out["dropped"] += 1
-        if lockstep and all(f in observed for f in lockstep):
-            a, b = observed[lockstep[0]], observed[lockstep[1]]
-            if a != b and len(out["lockstep_diff"]) < 5:
-                out["lockstep_diff"].append({"par": par, "ch": ch, "query": query, lockstep[0]: a, lockstep[1]: b})
+        for pair in (lockstep or ()):
+            if all(f in observed for f in pair):
+                a, b = observed[pair[0]], observed[pair[1]]
+                if a != b and len(out["lockstep_diff"]) < 8:
+                    out["lockstep_diff"].append({"par": par, "ch": ch, "query": query, "pair": list(pair), pair[0]: a, pair[1]: b})
     return out
